@@ -143,6 +143,18 @@ def s06_perturbed(ctx):
                 res.evaluations += 1
                 res.nontrivial += 1
                 res.distribution[side] = res.distribution.get(side, 0) + 1
+                if ctx.gen is not None:
+                    # translator validation end to end where snapping ACTS: the regenerated branches_and_nodes (gen_c06 `gpipe`) on the perturbed map
+                    gresp = ctx.gen.batch([f"gpipe t={rat(F(t))} areas={area_rows([area])} traces={lines([[(F(x), F(y)) for x, y in l] for l in fl])} clipped=0"])[0]
+                    res.distribution["regenerated_pipeline_compared"] = res.distribution.get("regenerated_pipeline_compared", 0) + 1
+                    if gresp.startswith("err") or gresp.startswith("error"):
+                        gn, gb = gresp.strip(), None
+                    else:
+                        ga = Arrangement("valid=1 wellformed=1 " + gresp.strip())
+                        gn, gb = Counter(c for _, c in ga.nodes), Counter(l for l, _, _ in ga.branches)
+                    if gn != exp_nodes or gb != exp_br:
+                        res.disagreements.append(Disagreement("S06-perturbed", dict(case, route="regenerated (Lean)"), {"nodes": dict(exp_nodes), "branches": dict(exp_br)},
+                                                              gresp[:300], None, "the regenerated branches_and_nodes (Lean) gives another topology on the perturbed map"))
                 for route in ("direct", "network"):
                     try:
                         nodes, branches = c01.impl_topology([[(F(x), F(y)) for x, y in l] for l in fl], area, t, route)
